@@ -20,6 +20,11 @@ def const_value(fx, def_path, depth=0):
     return eval_const(fx, h["body"], depth + 1)
 
 
+def _is_int(ty):
+    import re
+    return re.match(r"[iu](8|16|32|64|128|size)$", ty) is not None
+
+
 def eval_const(fx, n, depth=0):
     if depth > 12:
         raise NotConst("depth")
@@ -53,6 +58,11 @@ def eval_const(fx, n, depth=0):
         return eval_const(fx, n["e"], depth + 1)
     if k == "addrof":
         return eval_const(fx, n["e"], depth + 1)
+    # lossless integer conversions of a constant: u64::from(u32::MAX), u32::MAX.into()
+    if k == "call" and (n.get("fn") or "").endswith(("From::from", "Into::into")) and len(n.get("args", [])) == 1 and _is_int(n.get("ty", "")):
+        return eval_const(fx, n["args"][0], depth + 1)
+    if k == "mcall" and n.get("m") == "into" and not n.get("args") and _is_int(n.get("ty", "")):
+        return eval_const(fx, n["recv"], depth + 1)
     if k == "bin":
         a = eval_const(fx, n["l"], depth + 1)
         b = eval_const(fx, n["r"], depth + 1)
